@@ -122,6 +122,102 @@ Proof.
   eapply read_lines_refines in H; [exact H|]. cbn [rs_cfg]. apply sim_reset_config.
 Qed.
 
+(** ** Scan by Scan: a caller that stops after [k] records *)
+Notation scan_n := (scan_n is_space is_lower is_upper atoi parse_float).
+Notation spec_lines_take := (spec_lines_take is_space is_lower is_upper atoi parse_float).
+
+Lemma step_q fname n st line rs st' : step fname n st line = (rs, st') -> rs_q st' = rs_q st.
+Proof.
+  unfold Reader.step. destruct (classify line) as [[|k|name iters vals]|fs|k v|];
+    try (intros [= <- <-]; reflexivity).
+  destruct (unit_line fname n fs (rs_units st)) as [rs1 m1]. intros [= <- <-]. reflexivity.
+Qed.
+
+(** queued records are delivered first, without consuming input *)
+Lemma scan_n_pop fname ls n q : forall k st,
+  rs_q st = q ->
+  scan_n k fname n st ls =
+  if (k <=? length q)%nat then (firstn k q, None, set_q st (skipn k q))
+  else let '(rs, e, st2) := scan_n (k - length q) fname n (set_q st []) ls in (q ++ rs, e, st2).
+Proof.
+  induction q as [|r q IH]; intros k st Hq.
+  - destruct k; cbn [Nat.leb length firstn skipn].
+    + cbn. destruct st; cbn in *; subst; reflexivity.
+    + rewrite Nat.sub_0_r. replace (set_q st []) with st by (destruct st; cbn in *; subst; reflexivity).
+      destruct (scan_n (S k) fname n st ls) as [[rs e] st2]. reflexivity.
+  - destruct k.
+    + cbn. destruct st; cbn in *; subst; reflexivity.
+    + cbn [Reader.scan_n]. unfold Reader.scan at 1. rewrite Hq.
+      rewrite (IH k (set_q st q) eq_refl). cbn [length Nat.leb Nat.sub firstn skipn].
+      destruct (k <=? length q)%nat; [reflexivity|].
+      replace (set_q (set_q st q) []) with (set_q st []) by reflexivity.
+      destruct (scan_n (k - length q) fname n (set_q st []) ls) as [[rs e] st2]. reflexivity.
+Qed.
+
+Lemma Forall2_len {A B} (R : A -> B -> Prop) a b : Forall2 R a b -> length a = length b.
+Proof. induction 1; cbn; auto. Qed.
+
+Lemma Forall2_firstn {A B} (R : A -> B -> Prop) k : forall a b, Forall2 R a b -> Forall2 R (firstn k a) (firstn k b).
+Proof. induction k; intros a b H; [constructor|]. destruct H; cbn; constructor; auto. Qed.
+
+Lemma scan_n_refines fname ls : forall k n st m rs e st',
+  sim (rs_cfg st) m -> rs_q st = [] ->
+  scan_n k fname n st ls = (rs, e, st') ->
+  exists rs2, spec_lines_take fname n m (rs_units st) ls k = (rs2, e, rs_units st') /\
+              Forall2 rec_equiv rs rs2.
+Proof.
+  induction ls as [|[b|] ls IH]; intros k n st m rs e st' Hsim Hq.
+  - destruct k; cbn [Reader.scan_n Reader.spec_lines_take].
+    + intros [= <- <- <-]. exists []. auto.
+    + unfold Reader.scan. rewrite Hq. cbn. intros [= <- <- <-]. exists []. auto.
+  - destruct k as [|k]; cbn [Reader.scan_n Reader.spec_lines_take].
+    { intros [= <- <- <-]. exists []. auto. }
+    unfold Reader.scan. rewrite Hq. cbn [Reader.fill].
+    destruct (step fname (n + 1) st b) as [rs1 st1] eqn:E1.
+    destruct (step_refines _ _ _ _ _ _ _ Hsim E1) as (rs2 & m' & Hs & Hf & Hsim').
+    pose proof (step_q _ _ _ _ _ _ E1) as Hq1. rewrite Hq in Hq1.
+    rewrite Hs. pose proof (Forall2_len _ _ _ Hf) as Hlen.
+    destruct rs1 as [|r q].
+    + (* the line queued nothing: the same Scan goes on to the next line *)
+      inversion Hf; subst. cbn [length Nat.leb Nat.sub app].
+      intros H.
+      assert (H' : scan_n (S k) fname (n + 1) st1 ls = (rs, e, st')).
+      { cbn [Reader.scan_n]. unfold Reader.scan. rewrite Hq1. exact H. }
+      destruct (IH (S k) _ _ _ _ _ _ Hsim' Hq1 H') as (rs3 & Hs3 & Hf3). rewrite Hs3. exists rs3. auto.
+    + rewrite (scan_n_pop fname ls (n + 1) q k (set_q st1 q) eq_refl).
+      rewrite <- Hlen. cbn [length Nat.leb].
+      destruct (k <=? length q)%nat eqn:Ek.
+      * intros [= <- <- <-]. cbn [rs_units set_q]. exists (firstn (S k) rs2). split; auto.
+        apply (Forall2_firstn rec_equiv (S k) _ _ Hf).
+      * replace (set_q (set_q st1 q) []) with (set_q st1 []) by reflexivity.
+        destruct (scan_n (k - length q) fname (n + 1) (set_q st1 []) ls) as [[rs' e'] st2] eqn:E2.
+        intros [= <- <- <-].
+        destruct (IH (k - length q)%nat (n + 1)%Z (set_q st1 []) m' rs' e' st2 Hsim' eq_refl E2) as (rs3 & Hs3 & Hf3).
+        cbn [rs_units set_q] in Hs3. cbn [Nat.sub]. rewrite Hs3.
+        exists (rs2 ++ rs3). split; auto.
+        change (r :: q ++ rs') with ((r :: q) ++ rs'). now apply Forall2_app.
+  - destruct k; cbn [Reader.scan_n Reader.spec_lines_take].
+    + intros [= <- <- <-]. exists []. auto.
+    + unfold Reader.scan. rewrite Hq. cbn. intros [= <- <- <-]. exists []. auto.
+Qed.
+
+(** Reset in the middle of the records of a line: whatever the earlier state
+    (configuration, stale slots, undelivered queue), the first [k] records of the
+    next input are the first [k] records the format prescribes for it alone *)
+Theorem reader_take_refines_linespec k st fname labels content :
+  forall rs e st', read_file_take is_space is_lower is_upper atoi parse_float k st fname labels content = (rs, e, st') ->
+  exists rs2, linespec_take is_space is_lower is_upper atoi parse_float k (rs_units st) fname labels content
+                = (rs2, e, rs_units st') /\
+              Forall2 rec_equiv rs rs2.
+Proof.
+  intros rs e st' H. unfold Reader.read_file_take in H. unfold Reader.linespec_take.
+  eapply scan_n_refines in H; [exact H| |reflexivity]. apply sim_reset_config.
+Qed.
+
+(** the undelivered queue of the previous input cannot influence the next one *)
+Theorem reset_discards_queue st q labels : reset (set_q st q) labels = reset st labels.
+Proof. reflexivity. Qed.
+
 (** ** several files through one reader *)
 Notation files_loop := (files_loop is_space is_lower is_upper atoi parse_float).
 Notation files_spec_loop := (files_spec_loop is_space is_lower is_upper atoi parse_float).
